@@ -67,7 +67,7 @@ func (v ValidationResults) JoinErrors() error {
 	var result error
 
 	for _, intent := range v {
-		errors.Join(result, errors.Join(intent.errors...))
+		result = errors.Join(result, errors.Join(intent.errors...))
 	}
 	return result
 }
